@@ -1667,14 +1667,14 @@ def get_pythia_definitions(parsed_file: Tree) -> dict[str, dict[str, str | float
                 d[tree.children[0].value].update(
                     {
                         f"{tree.children[1].value}:{tree.children[2].value}": _str_or_float(
-                            tree.children[3].value
+                            tree.children[3]
                         )
                     }
                 )
             else:
                 d[tree.children[0].value] = {
                     f"{tree.children[1].value}:{tree.children[2].value}": _str_or_float(
-                        tree.children[3].value
+                        tree.children[3]
                     )
                 }
         return d
@@ -1892,11 +1892,11 @@ def get_global_photos_flag(parsed_file: Tree) -> int:
     return PhotosEnum.yes if val == "yes" else PhotosEnum.no
 
 
-def _str_or_float(arg: str) -> str | float:
-    try:
-        return float(arg)
-    except Exception:
-        return arg
+def _str_or_float(arg: Token) -> str | float:
+    # The grammar tells numbers from words: a word such as "inf" or "nan" stays a word
+    if arg.type == "SIGNED_NUMBER":
+        return float(arg.value)
+    return str(arg.value)
 
 
 def _str_to_bool(arg: str) -> bool:
